@@ -428,6 +428,12 @@ def curve_affine_eval(ctx, p, mult, rational, ab):
         ctx.check_true('derivatives(order=%d).len' % order, len(got) == len(want) == order + 1)
         for k in range(order + 1):
             ctx.check_eq_vec('derivatives(order=%d)[%d]*a^%d' % (order, k, k), [c * _pow(a, k) for c in got[k]], want[k])
+    # the same edit on both: reversal keeps the knot range (a*[0,1] + b), and the twins still agree under the same affine map
+    N.reverse()
+    _call(ctx, 'reverse', F.reverse)
+    ctx.check_eq_vec('reversed.domain', list(F.domain), [b, a + b])
+    ctx.check_eq_vec('reversed.knotvector=a*U+b', F.knotvector, [a * k + b for k in N.knotvector])
+    ctx.check_eq_vec('reversed.evaluate_single', _call(ctx, 'reversed.evaluate_single', F.evaluate_single, t), N.evaluate_single(u))
 
 
 def _affine_insert_shapes(tier):
@@ -839,8 +845,10 @@ def tessellate_num_procs(ctx, count, num_procs, delta, update_delta):
     stats = _pools(ctx)
     d = [ctx.lit(Fraction(x)) for x in delta]
 
-    def run(n):
+    def run(n, keep=None):
         c = _container(ctx, count)
+        if keep is not None:
+            keep.extend(list(c))
         if update_delta:
             c.delta = d
         else:
@@ -850,10 +858,11 @@ def tessellate_num_procs(ctx, count, num_procs, delta, update_delta):
         c.tessellate(delta=update_delta, **kw)
         return c
 
-    ref = run(None)
+    ref_members, cfg_members = [], []
+    ref = run(None, ref_members)
     one = run(1)
     ctx.check_true('num_procs=1.no_pool', stats['pools'] == 0)
-    cfg = _call(ctx, 'tessellate(num_procs=%d)' % num_procs, run, num_procs)
+    cfg = _call(ctx, 'tessellate(num_procs=%d)' % num_procs, run, num_procs, cfg_members)
     ctx.check_true('pool.used_with_num_procs', stats['pools'] == 1 and stats['processes'] == [num_procs],
                    'pools opened: %r' % (stats,))
     want = _mesh(ref.vertices, ref.faces)
@@ -871,6 +880,13 @@ def tessellate_num_procs(ctx, count, num_procs, delta, update_delta):
         ctx.check_true('element%d.evalpts.count' % k, len(a.evalpts) == len(b.evalpts))
         ctx.check_eq_grid('element%d.evalpts' % k, a.evalpts, b.evalpts)
         _check_mesh(ctx, 'element%d' % k, _mesh(a.vertices, a.faces), _mesh(b.vertices, b.faces))
+    # the same follow-up on both containers: the caller moves the surface it added first (in place) and reads the container again
+    ops = ctx.geomdl('operations')
+    vec = [ctx.lit(0), ctx.lit(0), ctx.lit(100)]
+    ops.translate(ref_members[0], list(vec), inplace=True)
+    ops.translate(cfg_members[0], list(vec), inplace=True)
+    ctx.check_eq_grid('followup.bbox', [list(cfg.bbox[0]), list(cfg.bbox[1])], [list(ref.bbox[0]), list(ref.bbox[1])])
+    _check_mesh(ctx, 'followup.container', _mesh(cfg.vertices, cfg.faces), _mesh(ref.vertices, ref.faces))
 
 
 def _vox_instances(tier):
